@@ -7,7 +7,7 @@ PROPS_FILE = 'Lm/Props/C12.lean'
 HARNESS_NAME = 'struct_harness'
 HARNESS_SRC = 'struct_harness.c'
 LIB_SRCS = ['Lib/structs/queue.c', 'Lib/structs/stack.c', 'Lib/structs/list.c', 'Lib/utils/mem.c', 'Lib/utils/log.c']
-RULE = ('one container per script (queue | stack | list, with/without destructor, list with/without comparator v%8); '
+RULE = ('one container per script (queue | stack | list, with/without destructor, list with/without the asymmetric comparator key%8 = (element/8)%8); '
         'random scripts over enq/deq/push/pop/ins/rm/find/peek/len/clear/free/iterate and it new/next/get/set/rm/ins, '
         'generated so that while an iterator is live the container is modified only through it or by enqueue (iterator '
         'invalidation rule; free abandons it), with NULL data, NULL handles (after free) and NULL iterators mixed in; plus ALL such '
@@ -23,7 +23,9 @@ INVALIDATES = {'queue': ('deq', 'rm', 'clear'), 'stack': ('push', 'pop', 'rm', '
 
 
 def cmp_eq(a, b):
-    return a % 8 == b % 8
+    """the harness's comparator as a test: first argument the caller's data, second the list element - deliberately not
+    symmetric (a heterogeneous lookup: the key's low three bits against bits 3..5 of the element)"""
+    return a % 8 == (b // 8) % 8
 
 
 # --------------------------------------------------------------------------------------------------
